@@ -1633,8 +1633,10 @@ func (up4 *UP4) revertCreate(all PacketForwardingRules, updated PacketForwarding
 
 // releaseStaleTunnelPeers drops the references that updated FARs still hold on tunnel peers
 // they no longer use (the gNB changed, or the FAR stopped forwarding) and removes peers that
-// are left without user. It runs after the sessions entries point to the new peers.
-func (up4 *UP4) releaseStaleTunnelPeers(fars []far) {
+// are left without user. It runs after the sessions entries point to the new peers. A peer
+// whose entry cannot be removed stays registered, reference included, and the error is returned:
+// like any other failed write it makes the modification fail.
+func (up4 *UP4) releaseStaleTunnelPeers(fars []far) error {
 	up4.tunnelPeerMu.Lock()
 	defer up4.tunnelPeerMu.Unlock()
 
@@ -1646,27 +1648,34 @@ func (up4 *UP4) releaseStaleTunnelPeers(fars []far) {
 			tunnelPort:   far.tunnelPort,
 		}
 
-		if usesPeer {
-			up4.unsafeReleaseTunnelPeerReferences(far, &current)
-		} else {
-			up4.unsafeReleaseTunnelPeerReferences(far, nil)
+		keep := &current
+		if !usesPeer {
+			keep = nil
+		}
+
+		if err := up4.unsafeReleaseTunnelPeerReferences(far, keep, false); err != nil {
+			return err
 		}
 	}
+
+	return nil
 }
 
-// releaseAllTunnelPeerReferences drops every reference that the FARs hold on tunnel peers.
+// releaseAllTunnelPeerReferences drops every reference that the FARs of a deleted session hold
+// on tunnel peers.
 func (up4 *UP4) releaseAllTunnelPeerReferences(fars []far) {
 	up4.tunnelPeerMu.Lock()
 	defer up4.tunnelPeerMu.Unlock()
 
 	for _, far := range fars {
-		up4.unsafeReleaseTunnelPeerReferences(far, nil)
+		_ = up4.unsafeReleaseTunnelPeerReferences(far, nil, true)
 	}
 }
 
 // unsafeReleaseTunnelPeerReferences drops the references of the FAR on all tunnel peers but
-// keep, and removes the peers that are left without user.
-func (up4 *UP4) unsafeReleaseTunnelPeerReferences(far far, keep *tunnelParams) {
+// keep, and removes the peers that are left without user. Unless force is set, a peer whose
+// entry cannot be removed keeps the reference and the error is returned.
+func (up4 *UP4) unsafeReleaseTunnelPeerReferences(far far, keep *tunnelParams, force bool) error {
 	ref := tnlPeerReference{far.fseID, far.farID}
 
 	for params, peer := range up4.tunnelPeerIDs {
@@ -1674,24 +1683,29 @@ func (up4 *UP4) unsafeReleaseTunnelPeerReferences(far far, keep *tunnelParams) {
 			continue
 		}
 
-		peer.usedBy.Remove(ref)
-
-		if peer.usedBy.Cardinality() != 0 {
+		if peer.usedBy.Cardinality() > 1 {
+			peer.usedBy.Remove(ref)
 			continue
 		}
 
 		entry, err := up4.p4RtTranslator.BuildGTPTunnelPeerTableEntry(peer.id, params)
+		if err == nil {
+			err = up4.p4client.ApplyTableEntries(p4.Update_DELETE, entry)
+		}
+
 		if err != nil {
-			logger.PfcpLog.Errorln("failed to build GTP tunnel peer entry to remove")
-			continue
+			logger.PfcpLog.Errorln("failed to remove GTP tunnel peer:", err)
+
+			if !force {
+				return ErrOperationFailedWithReason("removing GTP tunnel peer", err.Error())
+			}
 		}
 
-		if err := up4.p4client.ApplyTableEntries(p4.Update_DELETE, entry); err != nil {
-			logger.PfcpLog.Errorln("failed to remove GTP tunnel peer")
-		}
-
+		peer.usedBy.Remove(ref)
 		up4.unsafeReleaseAllocatedGTPTunnelPeer(params)
 	}
+
+	return nil
 }
 
 func (up4 *UP4) sendUpdate(all PacketForwardingRules, updated PacketForwardingRules) error {
@@ -1726,7 +1740,10 @@ func (up4 *UP4) sendUpdate(all PacketForwardingRules, updated PacketForwardingRu
 		return err
 	}
 
-	up4.releaseStaleTunnelPeers(updated.fars)
+	if err := up4.releaseStaleTunnelPeers(updated.fars); err != nil {
+		restoreMappings()
+		return err
+	}
 
 	return nil
 }
